@@ -12,7 +12,7 @@ import itertools
 
 META = dict(
     id="C10",
-    specs=["Looping.tla", "LoopingMC.tla", "LoopingTrace.tla", "LoopingSim.tla"],
+    specs=["Looping.tla", "LoopingMC.tla", "LoopingTrace.tla", "LoopingSim.tla"],   # LoopingMC runs with LoopingMC.cfg and LoopingMCLoose.cfg
     technique="TLA+ spec of LoopingCall on a stepped clock (TLC exhaustive over intervals 1..3, now/withCount flags, "
               "all advance patterns up to the horizon) + TLC trace validation of real LoopingCall/task.Clock executions "
               "(exhaustive short histories, seeded random long ones, TLC-generated behaviours replayed)",
@@ -334,10 +334,14 @@ def _report(ctx, traces, rej, label):
 
 
 def run(ctx):
-    r = ctx.mc("LoopingMC", ctx.pick("LoopingMC.cfg", "LoopingMC.thorough.cfg"))
-    if not r.ok:
-        from harness.core import MachineryError
-        raise MachineryError("Looping spec violates its own invariants: " + r.error)
+    from harness.core import MachineryError
+    # strict: the property on histories without reset() plus the re-based-grid reading of reset(); loose: what remains decided
+    # after a reset() (no overlap, no call after the start Deferred fired, that Deferred exactly once)
+    for cfgname, label in ((ctx.pick("LoopingMC.cfg", "LoopingMC.thorough.cfg"), "strict"),
+                           (ctx.pick("LoopingMCLoose.cfg", "LoopingMCLoose.thorough.cfg"), "after-reset clauses only")):
+        r = ctx.mc("LoopingMC", cfgname, label=label)
+        if not r.ok:
+            raise MachineryError("Looping spec violates its own invariants (%s): %s" % (label, r.error))
     ctx.require_actions("LoopingMC", ["StartNow", "StartLater", "AdvanceCall", "AdvanceQuiet", "FireOk", "FireFail",
                                       "StopScheduled", "StopInCall", "StopNotRunning",
                                       "ResetScheduled", "ResetInCall", "ResetNotRunning"])
